@@ -16,9 +16,11 @@ SeqsOver(S, n) == UNION {[1..k -> S] : k \in 0..n}
 Betas == {<<0, 1>>, <<1, 2>>, <<1, 1>>, <<2, 1>>}      \* beta = 0 (precision only) is the boundary of the range
 
 WS == SeqsOver({1, 3, 4}, MaxLen)
+\* predictions also use slot 7 = xxy: "x y" with a letter written where the blank was
+WSP == SeqsOver({1, 3, 4, 7}, MaxLen)
 Spelling == IF ~Fam("spelling") THEN {} ELSE
     {[kind |-> "spelling", input |-> <<a>>, pred |-> <<p>>, target |-> <<t>>, bn |-> b[1], bd |-> b[2], g |-> FALSE] :
-        a \in WS, p \in WS, t \in WS, b \in Betas}
+        a \in WS, p \in WSP, t \in WS, b \in Betas}
 
 RECURSIVE Spaced(_, _, _)
 Spaced(content, gaps, k) ==
